@@ -173,8 +173,10 @@ def find_pattern_in_structure(structure, pattern, axisp1_idx=None, axisp2_idx=No
             last_match_index_tuples = match_index_tuples
             match_index_tuples = []
             for match in last_match_index_tuples:
+                # a structure atom (whichever periodic image of it) can stand for one pattern atom only
+                uc_atoms_in_match = {near_indices[m] % len(structure) for m in match}
                 for ss_idx, atom_idx in enumerate(nearby_atom_indices):
-                    if near_types[atom_idx] == pattern_elements[i]:
+                    if near_types[atom_idx] == pattern_elements[i] and near_indices[atom_idx] % len(structure) not in uc_atoms_in_match:
                         found_match = True
                         # check all distances to this new proposed atom
                         for j in range(0, i):
